@@ -46,7 +46,8 @@ def field_values(pgn, idev, st):
     if pgn == 126464:
         return {1: [0]}
     if pgn == 126996:
-        return {1: le(N2K_VERSION, 2), 2: le(PRODUCT_CODE, 2), 3: fix32(MODEL_ID), 4: fix32(SW_CODE), 5: fix32(MODEL_VER), 6: fix32(SERIAL), 7: [CERT_LEVEL], 8: [LOAD_EQ]}
+        m, sw, ver, ser = st.get('prod') or (MODEL_ID, SW_CODE, MODEL_VER, SERIAL)
+        return {1: le(N2K_VERSION, 2), 2: le(PRODUCT_CODE, 2), 3: fix32(m), 4: fix32(sw), 5: fix32(ver), 6: fix32(ser), 7: [CERT_LEVEL], 8: [LOAD_EQ]}
     if pgn == 126998:
         return {1: varstr(st['d1']), 2: varstr(st['d2']), 3: varstr(st.get('manuf', MANUF_INFO))}
     return {}
@@ -227,6 +228,22 @@ def gen(seed, tier):
             blocks.append(['M', iso_request(51, 22, 126998), 'P', 'T 3', 'P'])
         cases.append(case(cfg1, ops_of(blocks)))
     cases += conf_change_cases(r, thorough)
+    # E4. product information set by the application, strings of 1..32 characters (32 = the whole field): requests whose selection field
+    #     equals the stored string, differs in the LAST character only, differs in the first, is a proper prefix / extension of it
+    def ptext(n):
+        return bytes(r.choice(b'ABCDEFGHIJKLMNOPQRSTUVWXYZabcdefghijklmnopqrstuvwxyz0123456789 .-') for _ in range(n))
+    for rep in range(5 if not thorough else 50):
+        lens = r.choice([(32, 32, 32, 32), (31, 32, 1, 16), (32, 5, 32, 8), (16, 32, 31, 32)])
+        strs = [ptext(n) for n in lens]
+        cfg = node(extra=' prod=%s' % ','.join(x.hex() for x in strs))
+        blocks = [['M', iso_request(51, 22, 126996), 'P', 'T 3', 'P']]
+        for f, cur in zip((3, 4, 5, 6), strs):
+            last = bytes([cur[-1] ^ 1])
+            variants = [cur, cur[:-1] + last, bytes([cur[0] ^ 1]) + cur[1:], cur[:-1], cur + b'x']
+            for v in (variants if thorough else r.sample(variants, 3) + [cur[:-1] + last]):
+                blocks.append(block(r, 'fp', 50, 22, gf_request(126996, pairs=[(f, fix32(v))])))
+        for k in range(0, len(blocks), 8):
+            cases.append(case(cfg, ops_of(blocks[k:k + 8])))
     # heartbeat: request then the periodic heartbeat states the interval
     for iv, off in [(1000, 0xffff), (5000, 100), (60000, 6000), (0xfffffffe, 0), (2500, 0)] + ([(r.randrange(1000, 60001), r.choice([0, 0xffff, r.randrange(6001)])) for _ in range(20)] if thorough else []):
         cases.append(case(node(extra=' hb=1'), ops_of([block(r, 'fp', 50, 22, gf_request(126993, iv, off), wait=False)]) + ['T %d' % (min(iv, 60000) + 7000), 'P', 'T %d' % min(iv, 60000), 'P']))
@@ -593,6 +610,8 @@ def oracle(case, res):
     ndev, src0, mode = cfg['ndev'], cfg['src'], cfg['mode']
     own = [own_addr(src0, i) for i in range(ndev)]
     st = fresh_state(ndev, bool(cfg.get('noconf')))
+    if cfg.get('prod'):                               # product strings set by the application (cut to 32 characters)
+        st['prod'] = tuple(bytes.fromhex(x)[:32] if x != '-' else b'' for x in cfg['prod'].split(','))
     if cfg.get('pconf') or cfg.get('conf'):          # configuration strings set by the application (installation descriptions 1, 2, manufacturer information)
         a, b, m = [bytes.fromhex(x)[:70] if x != '-' else b'' for x in (cfg.get('pconf') or cfg.get('conf')).split(',')]
         st['d1'], st['d2'], st['manuf'] = a, b, m
